@@ -1157,7 +1157,8 @@ impl X86Register {
             }
         } else {
             let full_reg = self.get_full()?;
-            let mask = ((1 << self.bits) - 1) << self.offset;
+            // keep everything except the bits being written
+            let mask = !(((1 << self.bits) - 1) << self.offset);
             let expr = Expr::and(full_reg.get()?, expr_const(mask, full_reg.bits))?;
             let value = Expr::zext(full_reg.bits, value)?;
             let expr = Expr::or(
